@@ -66,6 +66,25 @@ func c14Run(c *fw.Ctx, state string, q rune, s string) {
 	if state == "generic" {
 		return
 	}
+	// (c') ... also through a default tokenizer of that kind, as constructed, with decoding on
+	if (state == "csv" && q == '"') || (state == "expression" && q == '\'') {
+		var t tokenizers.ITokenizer
+		if state == "csv" {
+			t = csv.NewCsvTokenizer()
+		} else {
+			t = ctok.NewExpressionTokenizer()
+		}
+		t.SetDecodeStrings(true)
+		res := tokenizeOn(t, enc)
+		c.Eval(1)
+		if res.failed() || len(res.toks) != 2 || res.toks[0].typ != tokenizers.Quoted || res.toks[0].val != s || res.toks[1].typ != tokenizers.Eof {
+			detail := tokStr(res.toks)
+			if res.failed() {
+				detail = res.failStr()
+			}
+			c.Violation("default-tokenizer-read-back:"+state, "default %s tokenizer with DecodeStrings over %q (encoding of %q): %s; one Quoted token with the original value expected", state, enc, s, detail)
+		}
+	}
 	// (c) the encoded form in a stream is read back as exactly one token
 	for _, tail := range c14Tails {
 		text := enc + tail
@@ -103,7 +122,7 @@ func init() {
 		ID:    "C14",
 		Level: "model_checking",
 		Rule: "every string up to the length bound over {quote, other quote, ASCII letter, 2-, 3- and 4-byte characters, space, LF} x quote in {',\",”} x the three quote states; " +
-			"oracle: Decode never panics, Decode(Encode(s))=s, and for the expression and CSV states the encoding followed by each tail in {EOF,' x',','} is read back as one token that decodes to s with the scanner left at the tail; plus every history of <=3 Encode/Decode/NextToken calls (terminated and unterminated literals, any of the three quote characters) on ONE state instance, each result compared with a fresh instance; non-trivial = non-empty string",
+			"oracle: Decode never panics, Decode(Encode(s))=s, and for the expression and CSV states the encoding followed by each tail in {EOF,' x',','} is read back as one token that decodes to s with the scanner left at the tail, and a default CSV / expression tokenizer as constructed (decoding on) returns exactly one Quoted token holding s; plus every history of <=3 Encode/Decode/NextToken calls (terminated and unterminated literals, any of the three quote characters) on ONE state instance, each result compared with a fresh instance; non-trivial = non-empty string",
 		Assume: []string{"one representative per UTF-8 width stands for the width class"},
 		Spaces: func(tier string) []fw.Space {
 			maxLen := 5
